@@ -372,5 +372,6 @@ def run(ctx: Ctx) -> int:
 
 
 def replay(ctx: Ctx, case: dict) -> int:
-    print("C05 replay case:", case)
-    return 0
+    from vf.codec.replay import replay_case
+
+    return replay_case(ctx, case)
